@@ -277,6 +277,10 @@ func (cx *clusterRun) execOp(rec *opRec) {
 		if err != nil {
 			rec.Err = err.Error()
 		}
+	case "slowdelegate":
+		n.mu.Lock()
+		n.slowMsg = time.Duration(op.A)
+		n.mu.Unlock()
 	case "slow":
 		n.ep.mu.Lock()
 		n.ep.slowNs = op.A
